@@ -82,18 +82,26 @@ def mk_enum(name, prefix):
 TAG = dict(name='tag', type='int32', number=1)
 
 
+def kid_names(file):
+    """names of the subject's own nested message / enum (tokens Kid / KE of Types.tla); an EARLIER top-level message /
+    enum of the same file carries the same simple name (reference targets twin / etwin)."""
+    return ('Kid', 'KE') if file == 'a' else ('KidB', 'KEB')
+
+
 def targets(file, path, ctx):
     F = file.upper()
+    KID, KE = kid_names(file)
     full = PKG + '.' + '.'.join(path)
     t = dict(self=full, peer=f'{PKG}.{path[0]}Peer', before=f'{PKG}.Before{F}', after=f'{PKG}.After{F}',
              cousin=f'{PKG}.Before{F}.Inner', dep='other.dep.v1.Dep', depnested='other.dep.v1.Dep.Inner',
-             wkt='google.protobuf.Duration', kid=full + '.Kid', etop=f'{PKG}.Color{F}',
+             wkt='google.protobuf.Duration', kid=full + '.' + KID, twin=f'{PKG}.{KID}', etwin=f'{PKG}.{KE}',
+             etop=f'{PKG}.Color{F}',
              ecousin=f'{PKG}.Before{F}.Inner.Deep', edep='other.dep.v1.Level', edepnested='other.dep.v1.Dep.Mode',
-             ekid=full + '.KE')
+             ekid=full + '.' + KE)
     if len(path) >= 2:
         parent = PKG + '.' + '.'.join(path[:-1])
         t.update(parent=parent, sibling=parent + '.Sib', esibling=parent + '.SE',
-                 shadow=f'{PKG}.{path[-1]}.Kid', eshadow=f'{PKG}.{path[-1]}.KE')
+                 shadow=f'{PKG}.{path[-1]}.{KID}', eshadow=f'{PKG}.{path[-1]}.{KE}')
     if len(path) >= 3:
         t['root'] = PKG + '.' + path[0]
     if file == 'b':
@@ -131,11 +139,12 @@ def conc_message(i, sub):
     X = 'N' if file == 'a' else 'M'
     path = [f'C{i}'] + [f'{X}{j}' for j in range(2, d + 1)]
     tg = targets(file, path, ctx)
+    KID, KE = kid_names(file)
     full = tg['self']
     node = dict(name=path[-1], fields=[conc_field(f, tg) for f in sub['fields']], messages=[], enums=[])
     if ctx['kids']:
-        node['messages'].append(dict(name='Kid', fields=[TAG, dict(name='up', type='.' + full, number=2)]))
-        node['enums'].append(mk_enum('KE', 'KE'))
+        node['messages'].append(dict(name=KID, fields=[TAG, dict(name='up', type='.' + full, number=2)]))
+        node['enums'].append(mk_enum(KE, 'KE'))
     for level in range(d - 1, 0, -1):
         wrap = dict(name=path[level - 1], messages=[node], enums=[],
                     fields=[TAG, dict(name='child', type='.' + PKG + '.' + '.'.join(path[:level + 1]), number=2)])
@@ -147,7 +156,7 @@ def conc_message(i, sub):
     tops = [node]
     if any(f['ref'] == 'peer' for f in sub['fields']):
         tops.append(dict(name=f'C{i}Peer', fields=[TAG, dict(name='back', type='.' + full, number=2)]))
-    shape = dict(path=path, msgs=['Kid'] if ctx['kids'] else [], enums=['KE'] if ctx['kids'] else [],
+    shape = dict(path=path, msgs=[KID] if ctx['kids'] else [], enums=[KE] if ctx['kids'] else [],
                  fields=[dict(name=f['name'], number=f['number'], kind=f['kind'], card=f['card'], group=f['group'],
                               ref=tg[f['ref']] if f['ref'] else '', key=f['key']) for f in sub['fields']])
     return tops, dict(full=full, file=file, tg=tg, shape=shape)
@@ -174,9 +183,13 @@ def support(file):
                   messages=[dict(name='Inner', fields=[TAG], enums=[mk_enum('Deep', 'DEEP')])])
     # top-level messages named like the nested subjects (N2..N4 / M2..M4), with children named like the subject's own
     # children: the "shadow" reference targets
-    hosts = [dict(name=f'{X}{j}', fields=[TAG], messages=[dict(name='Kid', fields=[TAG])], enums=[mk_enum('KE', 'KE')])
+    KID, KE = kid_names(file)
+    hosts = [dict(name=f'{X}{j}', fields=[TAG], messages=[dict(name=KID, fields=[TAG])], enums=[mk_enum(KE, 'KE')])
              for j in (2, 3, 4)]
-    return [mk_enum(f'Color{F}', f'COLOR_{F}')], [before] + hosts, [dict(name=f'After{F}', fields=[TAG])]
+    # the twins: top-level, declared before every subject, named like the subjects' own nested children
+    twin = dict(name=KID, fields=[TAG, dict(name='top_level_only', number=7)])
+    return ([mk_enum(f'Color{F}', f'COLOR_{F}'), mk_enum(KE, f'TOP_{KE}')], [before, twin] + hosts,
+            [dict(name=f'After{F}', fields=[TAG])])
 
 
 def dep_file():
@@ -241,8 +254,8 @@ def big_subject(depth, file, seed_names, light=False):
             add('r_' + k, k, 'repeated')
         if not light or j % 3 == 1:
             add('o_' + k, k, 'optional')
-    mrefs = ['self', 'peer', 'before', 'after', 'kid', 'cousin', 'dep', 'depnested', 'wkt']
-    erefs = ['etop', 'ekid', 'ecousin', 'edep', 'edepnested']
+    mrefs = ['self', 'peer', 'before', 'after', 'kid', 'twin', 'cousin', 'dep', 'depnested', 'wkt']
+    erefs = ['etop', 'ekid', 'etwin', 'ecousin', 'edep', 'edepnested']
     if depth >= 2:
         mrefs += ['parent', 'sibling']; erefs += ['esibling']
     if depth >= 3:
@@ -276,6 +289,22 @@ def big_subject(depth, file, seed_names, light=False):
     add('global', 'enum', 'map', 'etop', 'string'); add('in', 'bool', group='lone'); add('far', 'uint64', number=536870911)
     add('edge_a', 'fixed32', number=18999); add('edge_b', 'sfixed64', number=20000); add('two_byte_tag', 'string', number=2048)
     return dict(kind='message', ctx=ctx, fields=fs, scripts=[], big=True)
+
+
+def twin_corner(depth, file):
+    """a message with a nested message / enum named like an earlier top-level message / enum of its file: direct, repeated,
+    optional, oneof and map-value fields typed by the TOP-LEVEL one and, for contrast, fields typed by the nested one."""
+    fs = []
+
+    def add(name, kind, card, ref, key='', group=''):
+        fs.append(dict(name=W(name), number=len(fs) + 1, kind=kind, card=card, group=group, ref=ref, key=key))
+    add('last_error', 'message', 'single', 'twin'); add('errors', 'message', 'repeated', 'twin')
+    add('by', 'message', 'map', 'twin', 'string'); add('maybe', 'message', 'optional', 'twin')
+    add('either', 'message', 'single', 'twin', group='choice'); add('own', 'message', 'single', 'kid')
+    add('owns', 'message', 'repeated', 'kid'); add('own_by', 'message', 'map', 'kid', 'int32')
+    add('level', 'enum', 'single', 'etwin'); add('levels', 'enum', 'repeated', 'etwin')
+    add('level_by', 'enum', 'map', 'etwin', 'bool'); add('own_level', 'enum', 'single', 'ekid')
+    return dict(kind='message', ctx=dict(depth=depth, file=file, kids=True), fields=fs, scripts=[], big=True, label='twin-corner')
 
 
 # ---- running packs ------------------------------------------------------------------------------------------
@@ -333,7 +362,7 @@ def stable_name(full):
 
 def shape_class(s, reserved):
     if s.get('big'):
-        return f"big/d{s['ctx']['depth']}{s['ctx']['file']}"
+        return f"{s.get('label', 'big')}/d{s['ctx']['depth']}{s['ctx']['file']}"
     return '+'.join(sorted(set(fclass(dict(f, reftok=f['ref']), reserved) for f in s.get('fields', [])))) or s['kind']
 
 
@@ -445,6 +474,10 @@ def main(chk, args):
     for b in bigs:
         b['nrandom'] = 6 if quick else 40
         b['rlen'] = 30 if quick else 40
+    corners = [twin_corner(1, 'a'), twin_corner(1, 'b'), twin_corner(2, 'b')]
+    for b in corners:
+        b['nrandom'], b['rlen'] = (4, 12) if quick else (20, 16)
+    bigs += corners
     subjects += bigs
     for i, s in enumerate(subjects):
         s['sid'] = i + 1
@@ -472,7 +505,8 @@ def main(chk, args):
     rnd.shuffle(rest)
     packs = [rest[k::npacks] for k in range(npacks)]
     packs[0] = files + packs[0]
-    packs = [[b] for b in bigs] + [[s for s in p if not s.get('big')] for p in packs]
+    packs = [[b] for b in bigs if len(b['fields']) > 20] + [[b for b in bigs if len(b['fields']) <= 20]] + \
+            [[s for s in p if not s.get('big')] for p in packs]
     packs = [p for p in packs if p]
     probes = [(cls, ss[0]) for cls, ss in sorted(risky.items())]
     results = []
@@ -580,10 +614,19 @@ def main(chk, args):
                 raise core.MachineryError(f'concretiser/projection disagree on the INPUT shape of {inf["full"]}:\n{shape_obs}\n{inf["shape"]}')
             classes = [fclass(dict(f, reftok=f['ref']), reserved) for f in s['fields']]
             if s.get('big'):
-                chk.case(f'big:{inf["full"]}')
+                # hand-laid shapes are judged by TypesTrace; a recorded exception is reported here as well (the number of
+                # rejections followed per batch is capped)
+                chk.case(f'{shape_class(s, reserved)}:{len(ts)} scripts')
+                for t in ts.values():
+                    err = next((e for e in t['events'] if e['ev'] == 'error'), None)
+                    if err is not None:
+                        chk.violation(f'roundtrip:error:{shape_class(s, reserved)}', f'{inf["full"]} ops={t.get("ops")}: {err["what"]}',
+                                      dict(subject=shape_class(s, reserved), trace=t['events'][1:]))
+                        break
                 continue
             # declaration
-            exp = dict(path=inf['shape']['path'], msgs=s['decl']['msgs'], enums=s['decl']['enums'],
+            kn = dict(zip(('Kid', 'KE'), kid_names(s['ctx']['file'])))
+            exp = dict(path=inf['shape']['path'], msgs=[kn[x] for x in s['decl']['msgs']], enums=[kn[x] for x in s['decl']['enums']],
                        fields=[dict(d, ref=inf['tg'][d['ref']] if d['ref'] else '') for d in s['decl']['fields']])
             ev0 = t0['events'][0]
             dkey = 'decl:' + '+'.join(sorted(set(classes))) + f":d{s['ctx']['depth']}{s['ctx']['file']}"
